@@ -7,7 +7,7 @@ from __future__ import annotations
 
 from .interp import Obj
 
-_CLS = {"q": "pyxform.question:InputQuestion", "g": "pyxform.section:GroupedSection", "r": "pyxform.section:RepeatingSection"}
+_CLS = {"q": "pyxform.question:InputQuestion", "g": "pyxform.section:GroupedSection", "r": "pyxform.section:RepeatingSection", "s": "pyxform.survey:Survey"}
 
 
 def _slots(ctx, ci):
@@ -52,7 +52,7 @@ def build(ctx, spec, survey_attrs=None):
             qa.update(extra)
             el = mk(ctx, repo.cls(_CLS["q"]), name, **qa)
         else:
-            el = mk(ctx, repo.cls(_CLS[kind]), name, type="repeat" if kind == "r" else "group", label=extra.get("label", name.upper()), children=[], **{k: v for k, v in extra.items() if k != "label"})
+            el = mk(ctx, repo.cls(_CLS[kind]), name, type={"r": "repeat", "s": "survey"}.get(kind, "group"), label=extra.get("label", name.upper()), children=[], **{k: v for k, v in extra.items() if k != "label"})
         el.attrs["parent"] = parent
         by_name[name] = el
         everything.append(el)
